@@ -17,6 +17,7 @@ import (
 	_ "verif/internal/props/c14"
 	_ "verif/internal/props/c15"
 	_ "verif/internal/props/c16"
+	_ "verif/internal/props/c17"
 	_ "verif/internal/props/c18"
 	_ "verif/internal/props/c19"
 	_ "verif/internal/props/c20"
